@@ -97,7 +97,9 @@ def lsp_session(binp, steps, cwd):
                 if "open" in st:
                     send({"jsonrpc": "2.0", "method": "textDocument/didOpen", "params": {"textDocument": {"uri": uri, "languageId": "st", "version": ver, "text": text}}})
                 else:
-                    send({"jsonrpc": "2.0", "method": "textDocument/didChange", "params": {"textDocument": {"uri": uri, "version": ver}, "contentChanges": [{"text": text}]}})
+                    # `text` may be a list: a didChange carrying several (or no) full-text content changes
+                    texts = text if isinstance(text, list) else [text]
+                    send({"jsonrpc": "2.0", "method": "textDocument/didChange", "params": {"textDocument": {"uri": uri, "version": ver}, "contentChanges": [{"text": t} for t in texts]}})
                 m = recv()
                 while m is not None and m.get("method") != "textDocument/publishDiagnostics":
                     m = recv()
